@@ -648,6 +648,8 @@ def run(scn: Dict[str, Any]) -> List[Dict[str, Any]]:
     env = Env(loop, cfg)
     loop.on_crash = lambda exc: env.rec("loop_crash", s=type(exc).__name__)
     try:
+        if cfg.get("via") == "inmem":
+            return _run_inmem(scn, cfg, loop, env)
         broker = ScriptedBroker(env)
         broker.result_backend = RecordingBackend(env)
         for idx, spec in enumerate(cfg.get("mws") or [], start=1):
@@ -835,6 +837,68 @@ def _play(scn: Dict[str, Any], loop: VLoop, env: Env, broker: "ScriptedBroker", 
             env.rec("listen_raised", s=type(task.exception()).__name__)
         env.closed = True
         return env.events
+
+
+def _run_inmem(scn: Dict[str, Any], cfg: Dict[str, Any], loop: VLoop, env: Env) -> List[Dict[str, Any]]:
+    """The worker half of InMemoryBroker: kick() hands the message straight to the Receiver the broker built for itself
+    (its own argument wiring: cast_types, max_async_tasks, propagate_exceptions; await_inplace or a task per message).
+    A message counts as taken when it is kicked; there is no listen() and so no shutdown to observe."""
+    from taskiq.brokers.inmemory_broker import InMemoryBroker
+    from taskiq.message import BrokerMessage
+
+    class ObsInMem(InMemoryBroker):
+        def __init__(self) -> None:
+            super().__init__(max_async_tasks=7, propagate_exceptions=cfg.get("propagate", True), cast_types=True,
+                             await_inplace=bool(cfg.get("inplace", False)))
+            self.msgs: List[Any] = []
+            self.arrived = 0
+            self.next = 0
+            self._wake = None
+            self.fail_next = False
+
+        def arrive(self, n: int) -> None:
+            upto = min(len(self.msgs), self.arrived + n)
+            for i in range(self.arrived, upto):
+                env.rec("take", m=i + 1)
+                mc = cfg["msgs"][i]
+                name = "no_such_task" if mc.get("kind") == "unknown" else mc.get("task", "ta0")
+                bm = BrokerMessage.model_construct(task_id=f"m{i + 1}", task_name=name, message=self.msgs[i], labels={})
+                loop.create_task(self._kick_quiet(bm))
+            self.arrived = upto
+
+        async def _kick_quiet(self, bm: Any) -> None:
+            try:
+                await self.kick(bm)
+            except Exception:  # noqa: BLE001   (unknown task: refused at the door, nothing was executed)
+                pass
+
+    broker = ObsInMem()
+    broker.executor.shutdown(wait=False)
+    broker.receiver.executor = InlineExecutor()
+    broker.result_backend = RecordingBackend(env)
+    for idx, spec in enumerate(cfg.get("mws") or [], start=1):
+        broker.add_middlewares(make_middleware(env, idx, spec))
+    make_tasks(env, broker, cfg)  # type: ignore[arg-type]
+    build_messages(env, broker, cfg)  # type: ignore[arg-type]
+    index_of = {id(msg): i for i, msg in enumerate(broker.msgs, start=1)}
+    inner = broker.receiver.callback
+
+    async def observed(message: Any, raise_err: bool = False) -> None:
+        m = index_of.get(id(message), 0)
+        CUR_M.set(m)
+        env.rec("cb_b", m=m)
+        try:
+            await inner(message=message, raise_err=raise_err)
+        except BaseException:  # noqa: BLE001
+            env.rec("cb_e", m=m, s="raised")
+            raise
+        else:
+            env.rec("cb_e", m=m, s="ok")
+
+    broker.receiver.callback = observed  # type: ignore[method-assign]
+    idle = loop.create_future()        # stands for the listen task the step interpreter reports on: never returns
+    finish = asyncio.Event()
+    return _play(scn, loop, env, broker, idle, finish, finish.set)  # type: ignore[arg-type]
 
 
 class _Unwind(BaseException):
